@@ -174,6 +174,14 @@ class Fn:
                     return FLOAT_CONSTS[v], "f"
                 if v == int(v) and abs(v) < 2 ** 31:
                     return f"(ofInt {int(v)})", "f"
+                # any other decimal literal m * 10^-k with m, 10^k < 2^53: the correctly rounded quotient of the two
+                # (exactly representable) integers is the double the literal denotes
+                import decimal
+                sign, digits, exp = decimal.Decimal(repr(v)).as_tuple()
+                mant = int("".join(map(str, digits)))
+                if isinstance(exp, int) and exp < 0 and mant < 2 ** 53 and -exp <= 22 and float(mant) / float(10 ** -exp) == abs(v):
+                    lit = f"(ofInt {mant} / ofInt {10 ** -exp})"
+                    return (f"(-{lit})" if sign else lit), "f"
                 raise Untranslatable(f"{self.name}: float literal {v!r}")
             raise Untranslatable(f"{self.name}: constant {v!r}")
         if isinstance(n, ast.Name):
